@@ -89,6 +89,8 @@ def plan(prop):
     if prop == 'C01':
         for n in ((2,) if Q else (2, 3)):
             obs.append((core, lambda ctx, n=n: co.ob_skills_gate(ctx, n)))
+        for m_, pos in (((2, 'any'), (2, 'departure'), (2, 'arrival'), (2, 'fixed')) if Q else ((1, 'any'), (2, 'any'), (3, 'any'), (1, 'departure'), (2, 'departure'), (1, 'arrival'), (2, 'arrival'), (1, 'fixed'), (2, 'fixed'))):
+            obs.append((core, lambda ctx, m_=m_, pos=pos: co.ob_lock_rule(ctx, m_, pos)))
     if prop in ('C01', 'C05'):
         for n in ((1, 2) if Q else (0, 1, 2, 3)):
             obs.append((core, lambda ctx, n=n: co.ob_compatibility_state(ctx, n)))
